@@ -1,7 +1,12 @@
-(* C02 -- property theorems only. *)
+(* C02 -- property theorems only.  Every statement is for every degree p, every knot vector kv
+   and every parameter value u that meet the stated hypotheses (no bounds).
+     kv_ok kv p   : length >= 2p+2, non-decreasing, kv[p] = kv[0], kv[n-p-1] = kv[n-1], kv[n-p-2] < kv[n-p-1]
+     open_kv kv p : the boolean well-formedness check of an open knot vector (implies kv_ok)
+     Nref / dNref : the Cox-de Boor recursion and its derivative recursion (coq/lib/Bsp.v)
+     sumf f a n   : f a + f (a+1) + ... + f (a+n-1) *)
 From Coq Require Import QArith Qcanon List Arith.
 From Verif.lib Require Import Bsp.
-From Verif.C02 Require Import Proofs.
+From Verif.C02 Require Import Proofs Proofs_ref Proofs_ndu Proofs_single.
 Import ListNotations.
 Open Scope Qc_scope.
 
@@ -22,3 +27,112 @@ Theorem findspan_unique : forall kv p u t,
   (S t < length kv)%nat -> kn kv t <= u -> u < kn kv (S t) -> t = findspan kv p u.
 Proof. exact findspan_unique_l. Qed.
 Print Assumptions findspan_unique.
+
+(* The boolean well-formedness predicate implies the facts the theorems assume. *)
+Theorem open_kv_ok : forall kv p, open_kv kv p = true -> kv_ok kv p.
+Proof. exact open_kv_ok_l. Qed.
+Print Assumptions open_kv_ok.
+
+(* Non-negativity of every basis function of a non-decreasing knot vector, at every u. *)
+Theorem N_nonneg : forall kv, sorted kv -> forall p i u,
+  (i + p + 1 < length kv)%nat -> 0 <= Nref kv p i u.
+Proof. exact N_nonneg_l. Qed.
+Print Assumptions N_nonneg.
+
+(* Support: N_{i,p}(u) <> 0 only for t_i <= u < t_{i+p+1}, or at the right end point u = t_last
+   for a function whose support reaches it. *)
+Theorem N_support_knots : forall kv p i u,
+  sorted kv -> (i + p + 1 < length kv)%nat -> Nref kv p i u <> 0 ->
+  (kn kv i <= u /\ u < kn kv (i + p + 1)) \/
+  (u = kn kv (length kv - 1) /\ kn kv i < kn kv (length kv - 1) /\ kn kv (i + p + 1) = kn kv (length kv - 1)).
+Proof. exact N_support_l. Qed.
+Print Assumptions N_support_knots.
+
+(* Locality in the form the property uses: only the p+1 functions s-p..s of the reported span
+   can be non-zero. *)
+Theorem N_local : forall kv p u i,
+  kv_ok kv p -> kn kv 0 <= u -> u <= kn kv (length kv - 1) -> (i + p + 1 < length kv)%nat ->
+  ~ (findspan kv p u - p <= i <= findspan kv p u)%nat -> Nref kv p i u = 0.
+Proof. exact N_local_l. Qed.
+Print Assumptions N_local.
+
+(* Partition of unity over the active functions ... *)
+Theorem N_partition_of_unity : forall kv p u,
+  kv_ok kv p -> kn kv 0 <= u -> u <= kn kv (length kv - 1) ->
+  sumf (fun i => Nref kv p i u) (findspan kv p u - p) (S p) = 1.
+Proof. exact N_partition_of_unity_l. Qed.
+Print Assumptions N_partition_of_unity.
+
+(* ... and over all basis functions. *)
+Theorem N_partition_of_unity_all : forall kv p u,
+  kv_ok kv p -> kn kv 0 <= u -> u <= kn kv (length kv - 1) ->
+  sumf (fun i => Nref kv p i u) 0 (numdofs kv p) = 1.
+Proof. exact N_partition_of_unity_all_l. Qed.
+Print Assumptions N_partition_of_unity_all.
+
+(* Derivatives of order k >= 1 sum to zero (over the active functions; over all functions). *)
+Theorem dN_sum_zero : forall kv p u k,
+  kv_ok kv p -> kn kv 0 <= u -> u <= kn kv (length kv - 1) -> (1 <= k)%nat ->
+  sumf (fun i => dNref kv k p i u) (findspan kv p u - p) (S p) = 0.
+Proof. exact dN_sum_zero_l. Qed.
+Print Assumptions dN_sum_zero.
+
+Theorem dN_sum_zero_all : forall kv p u k,
+  kv_ok kv p -> (1 <= k)%nat -> sumf (fun i => dNref kv k p i u) 0 (numdofs kv p) = 0.
+Proof. exact dN_sum_zero_all_l. Qed.
+Print Assumptions dN_sum_zero_all.
+
+(* Derivatives of order > p vanish identically; derivatives of every order are local. *)
+Theorem dN_high_zero : forall kv k p i u, (p < k)%nat -> dNref kv k p i u = 0.
+Proof. exact dN_high_zero_l. Qed.
+Print Assumptions dN_high_zero.
+
+Theorem dN_local : forall kv p u k i,
+  kv_ok kv p -> kn kv 0 <= u -> u <= kn kv (length kv - 1) -> (i + p + 1 < length kv)%nat ->
+  ~ (findspan kv p u - p <= i <= findspan kv p u)%nat -> dNref kv k p i u = 0.
+Proof. exact dN_local_l. Qed.
+Print Assumptions dN_local.
+
+(* Correctness of the NDU value loop of bspline_active_deriv_single (NURBS book A2.2):
+   row 0 of active_deriv is the vector of reference values of the p+1 active functions. *)
+Theorem active_values_eq_spec : forall kv p u nd,
+  kv_ok kv p -> kn kv 0 <= u -> u <= kn kv (length kv - 1) ->
+  nth 0 (active_deriv kv p u nd) [] =
+  map (fun r => Nref kv p (findspan kv p u - p + r) u) (seq 0 (S p)).
+Proof. exact active_values_eq_spec_l. Qed.
+Print Assumptions active_values_eq_spec.
+
+(* Every divisor of that loop (temp = ndu[r][j-1] / ndu[j][r], r < j <= p) is strictly positive,
+   so the exact model never uses its x/0 = 0 convention where the C code would divide by zero. *)
+Theorem ndu_divisors_pos : forall kv p u j r,
+  kv_ok kv p -> kn kv 0 <= u -> u <= kn kv (length kv - 1) -> (r < j)%nat -> (j <= p)%nat ->
+  0 < get2 (ndu_table kv p (findspan kv p u) u) j r.
+Proof. exact ndu_divisors_pos_l. Qed.
+Print Assumptions ndu_divisors_pos.
+
+(* Correctness of _bspline_single_ev_single, for every function index and EVERY u (inside or
+   outside the domain, on knots, at both end points). *)
+Theorem single_ev_eq_spec : forall kv p i u,
+  open_kv kv p = true -> (i + p + 1 < length kv)%nat -> single_ev kv p i u = Nref kv p i u.
+Proof. exact single_ev_eq_spec_l. Qed.
+Print Assumptions single_ev_eq_spec.
+
+(* Collocation rows: length numdofs, the p+1 active entries at columns first_active..first_active+p,
+   zeros elsewhere (any derivative order k) ... *)
+Theorem colloc_row_spec : forall kv p k u j, (j < numdofs kv p)%nat ->
+  nth j (colloc_row kv p k u) 0 =
+  if ((first_active_at kv p u <=? j) && (j <=? first_active_at kv p u + p))%nat
+  then nth (j - first_active_at kv p u) (nth k (active_deriv kv p u k) []) 0 else 0.
+Proof. exact colloc_row_spec_l. Qed.
+Print Assumptions colloc_row_spec.
+
+Theorem colloc_row_len : forall kv p k u, length (colloc_row kv p k u) = numdofs kv p.
+Proof. exact colloc_row_length. Qed.
+Print Assumptions colloc_row_len.
+
+(* ... and the value row is entry for entry the reference: B[u, j] = N_{j,p}(u) for every column j. *)
+Theorem colloc_row_values : forall kv p u j,
+  kv_ok kv p -> kn kv 0 <= u -> u <= kn kv (length kv - 1) -> (j < numdofs kv p)%nat ->
+  nth j (colloc_row kv p 0 u) 0 = Nref kv p j u.
+Proof. exact colloc_row_values_l. Qed.
+Print Assumptions colloc_row_values.
